@@ -66,42 +66,61 @@ Proof.
 Qed.
 Print Assumptions C29_nil_err.
 
-(** ** the whole call.  Full statement (the property): over the life of a DoStream / DoMultiStream call the wire taken
-    from the pool is stored exactly once.
-
-      forall c rs, lifetime c rs = Ok (outs, evs, leak) -> count_store evs = 1 /\ leak = false
-
-    The code does not satisfy it (DESIGN D7; repair pending with builder lts): *)
-Theorem C29_store_once_call_refuted : exists c rs outs evs,
-  forallb sres_wf rs = true /\ lifetime c rs = Ok (outs, evs, true) /\ count_store evs = 0%nat.
-Proof.
-  exists (mkCall 1 true true 0 true), [mkSres 5 None true], [], []. vm_compute. auto.
-Qed.
-Print Assumptions C29_store_once_call_refuted.
-
-(** exactly which calls fail it: those whose context is done at the check in DoStream — the wire is then never
-    stored (a leak when it is a counted pool wire, i.e. when the context ended after spool.Acquire); every other call
-    stores it exactly once, whatever DoStream itself runs into (flush failure, closed pipe) and whatever the replies *)
-Theorem C29_store_once_call_characterised : forall c rs outs evs leak,
+(** ** the whole call (the property): over the life of a DoStream / DoMultiStream call the wire taken from the pool is
+    stored exactly once and never left behind — on every path: a context that is already done at the check in DoStream
+    (whether spool.Acquire handed out its made-up dead pipe or a counted wire whose set-up outlived the context), a pipe
+    that is closing, a failed flush, and the stream the caller drains, whatever the replies.
+    This is the repaired code (fix: "DoStream/DoMultiStream must store the wire back when the context is already done"). *)
+Theorem C29_store_once_call : forall c rs outs evs leak,
   (0 < c_ncmd c)%nat -> (c_ncmd c <= length rs)%nat -> forallb sres_wf rs = true ->
   lifetime c rs = Ok (outs, evs, leak) ->
-  (c_ctx_done c = false -> count_store evs = 1%nat /\ leak = false) /\
-  (c_ctx_done c = true -> evs = [] /\ leak = c_real c /\ outs = []).
+  count_store evs = 1%nat /\ leak = false /\ (c_ctx_done c = true -> evs = [PStore] /\ outs = []).
 Proof. exact lifetime_store. Qed.
-Print Assumptions C29_store_once_call_characterised.
+Print Assumptions C29_store_once_call.
 
-Theorem C29_store_once_call_partial : forall c rs outs evs leak,
-  (0 < c_ncmd c)%nat -> (c_ncmd c <= length rs)%nat -> forallb sres_wf rs = true ->
-  c_ctx_done c = false ->
-  lifetime c rs = Ok (outs, evs, leak) -> count_store evs = 1%nat /\ leak = false.
-Proof. intros c rs outs evs leak Hn Hl Hwf Hc H. apply (lifetime_store c rs outs evs leak Hn Hl Hwf H). exact Hc. Qed.
-Print Assumptions C29_store_once_call_partial.
+(** ** the pool's books after the call: the pool accounts for exactly what is on its idle list — the connection when it
+    is still good (no error latched, nothing sent or everything consumed cleanly), nothing otherwise: a wire that was
+    closed gave its slot back, the dead pipe made up for a done context never had one.  No slot is lost, none is
+    given back twice. *)
+Theorem C29_books : forall c rs outs evs leak,
+  (0 < c_ncmd c)%nat -> (c_ncmd c <= length rs)%nat -> forallb sres_wf rs = true -> call_wf c = true ->
+  lifetime c rs = Ok (outs, evs, leak) ->
+  books c evs = if recycled c rs then (1, 1)%nat else (0, 0)%nat.
+Proof. exact lifetime_books. Qed.
+Print Assumptions C29_books.
 
-(** non-vacuity: five commands — payload, nil, error reply, payload, then an I/O failure *)
+(** ** record of the code as it was found (DESIGN D7): the early return on a done context did not store, so the
+    call-level statement failed for every call whose context ended between spool.Acquire and the check — a counted
+    wire was neither stored nor carried by the stream. *)
+Theorem C29_store_once_call_before_fix_refuted :
+  (exists c rs outs evs,
+     (0 < c_ncmd c)%nat /\ (c_ncmd c <= length rs)%nat /\ forallb sres_wf rs = true /\
+     lifetime_orig c rs = Ok (outs, evs, true) /\ count_store evs = 0%nat) /\
+  (forall c rs, c_ctx_done c = true -> lifetime_orig c rs = Ok ([], [], c_real c)).
+Proof.
+  split; [|exact lifetime_orig_ctx_done].
+  exists (mkCall 1 true true 0 true), [mkSres 5 None true], [], []. vm_compute. repeat split; auto.
+Qed.
+Print Assumptions C29_store_once_call_before_fix_refuted.
+
+(** non-vacuity: five commands — payload, nil, error reply, payload, then an I/O failure; a clean call of two; a
+    fault on a NON-final reply (the second of four): the stream ends there, the wire is closed and stored by that very
+    WriteTo, the slot is free again; the context paths *)
 Example C29b_nonvacuous :
   lifetime (mkCall 5 false true 0 true)
            [mkSres 10 None true; mkSres 0 (Some ENil) true; mkSres 0 (Some ERedis) true; mkSres 3 None true; mkSres 2 (Some EIO) false] =
   Ok ([(10, None); (0, Some ENil); (0, Some ERedis); (3, None); (2, Some EIO)], [PClose; PStore], false) /\
   lifetime (mkCall 2 false true 0 true) [mkSres 10 None true; mkSres 4 None true; mkSres 7 None true] =
-  Ok ([(10, None); (4, None)], [PStore], false).
-Proof. vm_compute. split; reflexivity. Qed.
+  Ok ([(10, None); (4, None)], [PStore], false) /\
+  lifetime (mkCall 4 false true 0 true) [mkSres 10 None true; mkSres 2 (Some EIO) false; mkSres 4 None true; mkSres 7 None true] =
+  Ok ([(10, None); (2, Some EIO)], [PClose; PStore], false) /\
+  books (mkCall 4 false true 0 true) [PClose; PStore] = (0, 0)%nat /\
+  (* the context ended while the counted wire was being set up: stored, back on the idle list *)
+  lifetime (mkCall 1 true true 0 true) [mkSres 5 None true] = Ok ([], [PStore], false) /\
+  books (mkCall 1 true true 0 true) [PStore] = (1, 1)%nat /\
+  (* the context was done before Acquire: the made-up dead pipe is stored (closed), the books stay at zero *)
+  lifetime (mkCall 1 true false 3 true) [mkSres 5 None true] = Ok ([], [PStore], false) /\
+  books (mkCall 1 true false 3 true) [PStore] = (0, 0)%nat /\
+  (* the dial failed: the shared dead wire took a slot and gives it back *)
+  books (mkCall 1 false true 3 true) [PStore] = (0, 0)%nat.
+Proof. vm_compute. repeat split; reflexivity. Qed.
